@@ -544,3 +544,20 @@ func JSONFP(v any) uint64 {
 	}
 	return Hash64(b)
 }
+
+// CountEnum adds a batch of enumerated cases (distinct by construction).
+func (r *Rec) CountEnum(evals, nontrivial int64, label string) {
+	r.mu.Lock()
+	r.evals += evals
+	r.direct += nontrivial
+	if label != "" {
+		r.labels[label] += evals
+	}
+	r.mu.Unlock()
+}
+
+// Fail records a violation for a test that does not go through Run/RunEnum.
+func (r *Rec) Fail(t testing.TB, c any, format string, args ...any) {
+	r.Violate(c, fmt.Sprintf(format, args...))
+	t.Fail()
+}
